@@ -26,6 +26,10 @@ def emit(pairs, check_fn=None):
             refused = (not imp.get("ok")) and imp.get("exc") == "BartiqCompilationError"
             items.append("([], [0%nat])" if refused else "([], [1%nat])")
             continue
+        if case.get("expect_ok") and not imp.get("ok"):
+            # a hand-built, valid hierarchy (C10: every valid hierarchy is compiled, with its structure): a refusal is a violation
+            items.append("([], [1%nat])")
+            continue
         if case.get("null_resource"):
             # a resource declared without a value: the source is refused as a whole; it is never compiled with the resource
             # silently left out (C10: every resource of the source is in the compiled hierarchy)
